@@ -99,6 +99,29 @@ def binomInit (wrap : Bool) (mults gray : List Nat) : Int :=
   let w := fun z => if wrap then wrap32 z else z
   (mults.zip gray).foldl (fun acc (m, g) => w (acc * (binomialCoeff m g : Int))) 1
 
+/-- largest absolute value a C `int` holds while the weights are computed exactly: the initial
+product and, at every step, the product formed before the division.  When it stays below `2^31` the
+`int` arithmetic of the kernel is exact; beyond that the C++ code has undefined behaviour. -/
+def maxIntermediate (mults limits : List Nat) : Nat :=
+  let idxMax := limits.foldl (· * ·) 1
+  let g0 := grayOf limits 0
+  let init : Int := binomInit false mults g0
+  let initMax := (mults.zip g0).foldl (fun (st : Int × Nat) (m, g) =>
+    let v := st.1 * (binomialCoeff m g : Int)
+    (v, max st.2 v.natAbs)) (1, 1)
+  let step := fun (st : List Nat × Int × Nat) (o : Nat) =>
+    let (g, coeff, mx) := st
+    let g' := grayOf limits (o + 1)
+    match lastDiff g g' with
+    | none => (g', coeff, mx)
+    | some i =>
+      let prev := g.getD i 0
+      let value := g'.getD i 0
+      let m := mults.getD i 0
+      let prod : Int := if value < prev then coeff * prev else coeff * ((m : Int) - prev)
+      (g', binomUpdate false coeff m prev value, max mx prod.natAbs)
+  ((List.range (idxMax - 1)).foldl step (g0, init, initMax.2)).2.2
+
 /-! ### the permanent algorithm -/
 
 variable {K : Type} [Add K] [Mul K] [Sub K] [Neg K] [Div K] [OfNat K 0] [OfNat K 1] [OfNat K 2]
